@@ -390,6 +390,11 @@ inductive BusyStep : St → St → Prop where
   | p (b : Bytes) {s s' : St} : s.ppc.busy = true → stepP s b = some s' → BusyStep s s'
   | c (call : Call) {s s' : St} : s.cpc.busy = true → stepC s call = some s' → BusyStep s s'
 
+/-- zero or more busy steps -/
+inductive BusySteps : St → St → Prop where
+  | refl (s : St) : BusySteps s s
+  | step {s s' s'' : St} : BusyStep s s' → BusySteps s' s'' → BusySteps s s''
+
 /-- steps the producer still has to take before its call returns -/
 def PPc.rem : PPc → Nat
   | .idle => 0 | .lock _ => 6 | .app _ => 5 | .inc => 4 | .recv => 3 | .send => 2 | .unlock => 1
